@@ -33,9 +33,59 @@ def _comp_over(ex, e, g, st, it):
         return _dictcomp_over_items(ex, e, g, st, it.d)
     if isinstance(it, PMap) and isinstance(e, ast.DictComp):
         return _dictcomp_over_map(ex, e, g, st, it)
+    if isinstance(it, PSet):
+        return _over_symbolic_set(ex, e, g, st, it)
     if isinstance(it, PSeq) or (isinstance(it, ZV) and it.kind == 'val'):
         return _over_symbolic_seq(ex, e, g, st, it)
     raise Unsupported(f'comprehension over {it!r} (line {e.lineno} in {ex.spec.qual})')
+
+
+def comp_key(ex, e):
+    """static identity of a comprehension: 'comp:for <target> in <iter>' + ordinal among equal headers"""
+    hdr = lambda n: f'comp:for {ast.unparse(n.generators[0].target)} in {ast.unparse(n.generators[0].iter)}'
+    same = [n for n in ast.walk(ex.spec.node) if isinstance(n, (ast.ListComp, ast.SetComp, ast.DictComp, ast.GeneratorExp)) and hdr(n) == hdr(e)]
+    same.sort(key=lambda n: (n.lineno, n.col_offset))
+    k = same.index(e)
+    return hdr(e) if k == 0 else f'{hdr(e)}#{k}'
+
+
+def _over_symbolic_set(ex, e, g, st, it):
+    """{x for x in S if cond(x)} with a pure filter: the subset.  Any other list/set comprehension over a set is executed as
+    the loop it abbreviates (`_comp_result = []; for x in S: if cond: _comp_result.append(elt)`), cut by the invariant the
+    contract gives under the key comp_key(); the iterable expression is evaluated again by that loop (it must be pure)."""
+    if (isinstance(e, ast.SetComp) and isinstance(g.target, ast.Name) and isinstance(e.elt, ast.Name) and e.elt.id == g.target.id
+            and it.ekind == 'ref'):
+        x = fresh('x', IntSort())
+        base = st.copy(); base.env[g.target.id] = ZV('ref', x)
+        cond, pure = BoolVal(True), True
+        for test in g.ifs:
+            res = ex.ev(test, base)
+            if len(res) != 1 or isinstance(res[0][1], Raise) or len(res[0][0].pc) != len(base.pc) or not res[0][0].tn.eq(base.tn):
+                pure = False; break
+            cond = And(cond, truth(res[0][1], res[0][0]))
+        if pure:
+            return [(st, PSet(z3.Lambda([x], And(it.arr[x], cond)), 'ref'))]
+    if not isinstance(e, (ast.ListComp, ast.SetComp)): raise Unsupported(f'comprehension over a set (line {e.lineno})')
+    name = '_comp_result'
+    add = 'append' if isinstance(e, ast.ListComp) else 'add'
+    body = ast.Expr(ast.Call(ast.Attribute(ast.Name(name, ast.Load()), add, ast.Load()), [e.elt], []))
+    if g.ifs:
+        body = ast.If(g.ifs[0] if len(g.ifs) == 1 else ast.BoolOp(ast.And(), list(g.ifs)), [body], [])
+    loop = ast.For(g.target, g.iter, [body], [], lineno=e.lineno, col_offset=e.col_offset)
+    ast.fix_missing_locations(ast.copy_location(loop, e))
+    loop._comp_key = comp_key(ex, e)
+    s0 = st.copy()
+    saved = s0.env.get(name)
+    s0.env[name] = PSeq(K(IntSort(), Val.VNone), IntVal(0), 'val', True) if add == 'append' else PSet(K(Val, BoolVal(False)), 'val')
+    outs = []
+    from .engine import NEXT
+    for s1, fl in ex.run_block([loop], s0):
+        res = s1.env.get(name)
+        s1 = s1.copy()
+        if saved is None: s1.env.pop(name, None)
+        else: s1.env[name] = saved
+        outs.append((s1, res) if fl is NEXT else (s1, Raise(fl[1])))
+    return outs
 
 
 def _dictcomp_over_items(ex, e, g, st, d):
